@@ -633,6 +633,54 @@ def check_wiring(facts):
         miss = [k for k in want if canon(k) not in {canon(v) for v in got}]
         if miss:
             r.fail("%s complete" % fn.split("::")[-1], "ECMAScript %s(s) not accepted: %s" % (label, miss), facts.loc(fn))
+    # an explicit `Name=` prefix consults the value table of that name only
+    fnp = "unicode::unicode_property_from_str"
+    if fnp not in facts.hir:
+        r.error("anchor %s not found" % fnp)
+    else:
+        from . import hirutil as HU
+        ms = HU.find_matches(facts.hir[fnp]["body"], r"Option<unicode(tables)?::UnicodePropertyName>")
+        ALLOWED = {
+            "GeneralCategory": {"unicode_property_value_general_category_from_str", "general_category_property_value_ranges"},
+            "Script": {"unicode_property_value_script_from_str", "script_value_ranges"},
+            "ScriptExtensions": {"unicode_property_value_script_from_str", "script_extensions_value_ranges"},
+            "None": {"unicode_property_binary_from_str", "binary_property_ranges", "unicode_string_property_from_str", "string_property_sets",
+                     "unicode_property_value_general_category_from_str", "general_category_property_value_ranges"},
+        }
+        if not ms:
+            r.error("%s: no match on the property name found" % fnp)
+        else:
+            seen_variants = set()
+            for a in ms[0]["arms"]:
+                def inner(pt):
+                    """variants named by the pattern, looking inside Some(..)"""
+                    k = pt.get("k")
+                    if k == "or":
+                        return [x for q in pt["pats"] for x in inner(q)]
+                    if k == "tstruct" and HU.short((pt.get("res") or {}).get("path", "")) == "Some":
+                        return [x for q in pt.get("pats", []) for x in inner(q)]
+                    return [HU.short(v) for v in HU.pat_variants(pt)]
+                vs = inner(a["pat"]) or ["_"]
+                lookups = {c.split("::")[-1] for c in HU.calls_in(a["body"])
+                           if re.search(r"_from_str$|_ranges$|_sets$", c.split("::")[-1])}
+                for v in vs:
+                    seen_variants.add(v)
+                    key = "unicode_property_from_str name=%s" % v
+                    allowed = ALLOWED.get(v)
+                    if allowed is None:
+                        r.fail(key, "unexpected arm for property name %s" % v, facts.loc(fnp, a.get("line")))
+                    elif not lookups <= allowed:
+                        r.fail(key, "with the property name `%s` the value is also looked up through %s: `\\p{%s=X}` accepts values that "
+                                    "are not %s values (e.g. binary property names) instead of rejecting them" % (
+                                        v, sorted(lookups - allowed), {"GeneralCategory": "gc", "Script": "sc", "ScriptExtensions": "scx"}.get(v, v), v),
+                               facts.loc(fnp, a.get("line")))
+                    elif v != "None" and not lookups:
+                        r.fail(key, "no value table is consulted for property name %s" % v, facts.loc(fnp, a.get("line")))
+                    else:
+                        r.ok(key, "consults %s" % sorted(lookups))
+            for v in ("GeneralCategory", "Script", "ScriptExtensions", "None"):
+                if v not in seen_variants and "_" not in seen_variants:
+                    r.fail("unicode_property_from_str name=%s" % v, "no arm handles property name %s" % v, facts.loc(fnp))
     # script names: wiring only (long name normalises to the variant)
     fn = "unicodetables::unicode_property_value_script_from_str"
     got = from_str_arms(facts, fn)
